@@ -316,6 +316,7 @@ func checkC18(c *Ctx) {
 	checkC18StopRecord(c)
 	checkKeyCodeTables(c, "C18.key-code-tables")
 	checkPopOrder(c, "C18.pop-order")
+	checkPrefixBoundPop(c, "C18.pushed-back-argument")
 }
 
 // checkNoNarrowing: no lossy rune→byte conversion of keys taken from Keys.macroKeys.
